@@ -191,6 +191,7 @@ def run(run):
     run.rule('R-UNLINK.bytes', 'array acquire and release siblings of the pools hand the free list the same byte count', floor=10)
     run.rule('R-UNLINK.move', 'counter and nodes of the free lists travel together through move and swap', floor=6)
     run.rule('R-GROW', 'growth only when the free list is empty (node) or the search failed (array)', floor=10)
+    run.rule('R-UNLINK.check', 'the request is checked before a node is taken off a list (shared rule R-THROW.6 of C03)', floor=0)
     run.explanation = ('"Exactly the memory that was taken becomes available again" is decided as term agreement between what allocate(n) unlinks '
                        '(ceil(n/node_size) nodes, from the search loop) and what deallocate(ptr,n) links, plus exact capacity_ bookkeeping; '
                        '"never grows while a node is free" as control dependence of the block-source call on the list being empty.')
@@ -206,6 +207,10 @@ def run(run):
             run.broke('array search functions not found [%s]' % cfg)
         if check_array_bytes(run, db) < 6:
             run.broke('array siblings of the pools not found [%s]' % cfg)
+        # no node is taken off a free list before the last check that can still refuse the request has passed: a refusal after the
+        # node was taken drops it for good (shared rule R-THROW.6 of C03)
+        from rules import c03, c05
+        c03.check_checks_first(c05._Renamed(run, 'R-UNLINK.check'), db)
         if check_list_moves(run, db) < 2:
             run.broke('free lists with move operations not found [%s]' % cfg)
         if check_growth(run, db) < 8:
